@@ -52,13 +52,19 @@ vars  == <<svars, gvars, tvars, mvars, cpc, order>>
 
 Min(a, b) == IF a < b THEN a ELSE b
 MaxCalls == 4
+(* An infinite source (VectorSource with Repeat::infinite over RepLen        *)
+(* samples): total = Inf, `left` is what remains of the current repetition   *)
+(* and the sink count saturates. Such a run ends only by cancellation.       *)
+Inf == -1
+RepLen == 3
+MaxGot == 8
 Perms == {s \in [1 .. N -> 1 .. N] : \A i, j \in 1 .. N : i # j => s[i] # s[j]}
 Orders == IF AllOrders THEN Perms ELSE {[i \in 1 .. N |-> i]}
 
 Init ==
   /\ used = [s \in Streams |-> 0]
   /\ wAlive = [s \in Streams |-> TRUE] /\ rAlive = [s \in Streams |-> TRUE]
-  /\ total \in Totals /\ left = total /\ got = 0 /\ cancelled = FALSE
+  /\ total \in Totals /\ left = (IF total = Inf THEN RepLen ELSE total) /\ got = 0 /\ cancelled = FALSE
   /\ fail \in (IF FailAt = {} THEN {<<0, 0>>} ELSE FailAt)
   /\ pc = [b \in Blocks |-> "unborn"]
   /\ winIn = [b \in Blocks |-> 0] /\ winOut = [b \in Blocks |-> 0]
@@ -153,7 +159,7 @@ T_UnlW(b) ==
 T_LockC(b) ==      \* consume(n)
   /\ pc[b] = "lock:c"
   /\ used' = Set(used, In(b), used[In(b)] - nmove[b])
-  /\ got' = IF Kind(b) = "sink" THEN got + nmove[b] ELSE got
+  /\ got' = IF Kind(b) = "sink" THEN (IF total = Inf THEN Min(got + nmove[b], MaxGot) ELSE got + nmove[b]) ELSE got
   /\ notified' = NotifyOn(In(b))
   /\ pc' = Set(pc, b, "unlocked:c")
   /\ UNCHANGED <<wAlive, rAlive, total, left, cancelled, fail, winIn, winOut, nmove, wgot, closed,
@@ -167,7 +173,9 @@ T_UnlC(b) ==
 T_LockP(b) ==      \* produce(n)
   /\ pc[b] = "lock:p"
   /\ used' = Set(used, Out(b), used[Out(b)] + nmove[b])
-  /\ left' = IF Kind(b) = "src" THEN left - nmove[b] ELSE left
+  /\ left' = IF Kind(b) = "src"
+             THEN (IF total = Inf /\ left - nmove[b] = 0 THEN RepLen ELSE left - nmove[b])
+             ELSE left
   /\ notified' = NotifyOn(Out(b))
   /\ pc' = Set(pc, b, "unlocked:p")
   /\ UNCHANGED <<wAlive, rAlive, total, got, cancelled, fail, winIn, winOut, nmove, wgot, closed,
@@ -298,6 +306,7 @@ ResultRight == (Returned /\ ~cancelled /\ fail = <<0, 0>>) => (got = total /\ re
 Terminates == <>Returned
 (* C07 *)
 CancelBounded == \A b \in Blocks : after[b] <= 1
+CancelStops == cancelled ~> Returned
 FailIsErr == (Returned /\ fail # <<0, 0>> /\ errd[fail[1]]) => result = "err"
 NoPanic == result # "panic"
 TypeOK == \A s \in Streams : used[s] \in 0 .. Cap
